@@ -244,7 +244,9 @@ theorem continuation_joins (f : Nat) (a nxt : Str) (rest : List Str) (ns : Str)
   rw [contLoop]
   rw [if_pos h4]
 
-/-- blank and comment lines inside a continuation are skipped, the continuation goes on -/
+/-- a blank or comment line right after a continued line is consumed and **ends the value** (the joined text so far, its
+trailing backslash and blanks removed, no longer ends in a backslash): a comment or blank line is never part of a continued
+value — the reference implementation's reading, pinned by `examples/testini.ini` (`multi5`); what follows is a new entry -/
 theorem continuation_skips_junk (f : Nat) (a junk : Str) (rest : List Str) (ns : Str)
     (hj : (trim junk).isEmpty = true ∨ isComment (trim junk) = true) :
     contLoop (f + 1) (a ++ ['\\']) (junk :: rest) ns = contLoop f (trimR a) rest ns := by
